@@ -44,12 +44,18 @@ def plan(tier, seed):
 
 
 class Rig:
-    def __init__(self, identity=None, node_id=0xFF):
+    created = 0
+
+    def __init__(self, identity=None, node_id=0xFF, via=None):
         import canopen.lss
+        Rig.created += 1
+        if via is None:
+            # every third rig: a back end that hands frames to Network.notify() in one reused receive buffer
+            via = "notify-reuse" if Rig.created % 3 == 0 else "listener"
         self.vt = VirtualTime()
         canopen.lss.time = self.vt
         self.bus = simbus.SimBus(mode="inline")
-        self.net, self.st = simbus.make_network(self.bus, "master")
+        self.net, self.st = simbus.make_network(self.bus, "master", via=via)
         self.lss = self.net.lss
         self.lss.RESPONSE_TIMEOUT = 0.0005
         self.slave = None
@@ -84,7 +90,8 @@ def flush(ctx, rig, case):
 def scan_case(ctx, ident, follow_up, rng):
     from canopen.lss import LssError
     rig = Rig(ident)
-    case = {"workload": "scan", "identity": [hex(p) for p in ident]}
+    case = {"workload": "scan", "identity": [hex(p) for p in ident], "backend": rig.st.via}
+    ctx.seen("backends", rig.st.via)
     ctx.case(("scan", idclass(ident)), nontrivial=idclass(ident) != "all-zero")
     ctx.count("scans")
     try:
@@ -106,6 +113,47 @@ def scan_case(ctx, ident, follow_up, rng):
     if len(ctx.samples) < 3:
         ctx.sample({"identity": [hex(p) for p in ident], "found": [hex(p) for p in found] if found else None,
                     "requests": rig.slave.requests, "virtual_sleep_s": round(rig.vt.slept, 2)})
+    rig.close()
+
+
+def commission_two(ctx, rng):
+    """Commissioning as CiA 305 describes it: find the one unconfigured device, give it a node id, send it back to
+    waiting state, plug in the next unconfigured device, scan again - all on one LssMaster."""
+    ida = [rng.getrandbits(32) for _ in range(4)]
+    idb = [rng.getrandbits(32) for _ in range(4)]
+    if rng.random() < 0.5:
+        idb = [p & rng.getrandbits(32) for p in ida]          # the second identity has a subset of the first one's bits
+    rig = Rig(ida)
+    case = {"workload": "two-devices", "first": [hex(p) for p in ida], "second": [hex(p) for p in idb], "backend": rig.st.via}
+    ctx.case(("scan", "two-devices", rig.st.via), nontrivial=True)
+    try:
+        ok, found = rig.lss.fast_scan()
+        ctx.count("scans")
+        if not ok or list(found) != ida:
+            ctx.violation("fast-scan-wrong-identity", f"first scan returned ({ok}, {found})", case)
+            rig.close()
+            return
+        kept = list(found)
+        rig.lss.configure_node_id(rng.randint(1, 127))
+        rig.lss.store_configuration()
+        rig.lss.send_switch_state_global(rig.lss.WAITING_STATE)
+        second = LssSlave(idb)
+        rig.bus.actor_station("slave2", LssActor(second))
+        ok2, found2 = rig.lss.fast_scan()
+        ctx.count("scans")
+        if not ok2 or list(found2 or []) != idb:
+            ctx.violation("fast-scan-wrong-identity:second-device", f"second scan on the same master returned ({ok2}, {[hex(p) for p in found2] if found2 else found2}) "
+                          f"for identity {[hex(p) for p in idb]} (first device {[hex(p) for p in ida]} is configured now)", case)
+        elif second.state != CONFIGURATION:
+            ctx.violation("fast-scan-slave-not-in-configuration", f"second scan succeeded but the device is in state {second.state}", case)
+        if list(found) != kept:
+            ctx.violation("fast-scan-result-changed-later", f"the identity returned by the first scan changed to {[hex(p) for p in found]} during the second scan", case)
+        for mech, msg in second.violations:
+            ctx.violation("wire:" + mech, msg, case)
+        ctx.count("lss_requests_validated", second.requests)
+    except Exception as exc:  # noqa: BLE001
+        ctx.violation(f"fast-scan-raised:{type(exc).__name__}", f"two-device commissioning raised {exc!r}", case)
+    flush(ctx, rig, case)
     rig.close()
 
 
@@ -364,6 +412,8 @@ def run(ctx, desc):
     if res != (False, None):
         ctx.violation("fast-scan-configured-slave", f"fast_scan with only a configured slave returned {res}", {"workload": "configured"})
     rig.close()
+    for _ in range(3):
+        commission_two(ctx, rng)
     if desc["part"] in (0, 1, 2):
         fault_cases(ctx, rng, desc["fault_codes"])
     selective(ctx, rng)
